@@ -82,8 +82,49 @@ fn needles() -> Vec<Vec<u8>> {
 }
 
 static GATE: AtomicU64 = AtomicU64::new(0);
+static STAGE: [AtomicU64; 7] = [AtomicU64::new(0), AtomicU64::new(0), AtomicU64::new(0), AtomicU64::new(0), AtomicU64::new(0), AtomicU64::new(0), AtomicU64::new(0)];
 
-fn worker(t: usize, rounds: usize, threads: usize, shared: Option<&[(memmem::Finder<'_>, memmem::FinderRev<'_>, Vec<u8>)]>) {
+/// Cold mode, before anything else in the process has used the crate: the
+/// seven dispatched routines in the order `first, first+1, ..` (mod 7), each
+/// behind its own spin barrier, so that for EVERY routine all threads make
+/// the process's first call to it at the same moment - on a haystack with
+/// several matches whose first, last and count differ (a stand-in routine
+/// that a racy installation protocol runs meanwhile - wrong direction, wrong
+/// needle count, a scalar loop with a different bound - shows as a wrong
+/// answer). (After seeded change RZH; the loom exploration is the exhaustive
+/// part, this is its free-running complement on the real build.)
+fn first_call_sweep(t: usize, threads: usize, first: usize) {
+    let (n1, n2, n3) = (b'a' + t as u8, b'm' + t as u8, b'x');
+    let len = 90 + 37 * t;
+    let mut h = vec![b'.'; len];
+    for (i, b) in h.iter_mut().enumerate() {
+        if i % 31 == 5 + t {
+            *b = n1;
+        } else if i % 37 == 11 {
+            *b = n2;
+        } else if i % 41 == 17 {
+            *b = n3;
+        }
+    }
+    for k in 0..7 {
+        let r = (first + k) % 7;
+        STAGE[k].fetch_add(1, Ordering::SeqCst);
+        while STAGE[k].load(Ordering::SeqCst) < threads as u64 {
+            std::hint::spin_loop();
+        }
+        match r {
+            0 => check("first memchr", t, memchr::memchr(n1, &h), h.iter().position(|&b| b == n1)),
+            1 => check("first memrchr", t, memchr::memrchr(n1, &h), h.iter().rposition(|&b| b == n1)),
+            2 => check("first memchr2", t, memchr::memchr2(n2, n1, &h), h.iter().position(|&b| b == n1 || b == n2)),
+            3 => check("first memrchr2", t, memchr::memrchr2(n2, n1, &h), h.iter().rposition(|&b| b == n1 || b == n2)),
+            4 => check("first memchr3", t, memchr::memchr3(n3, n2, n1, &h), h.iter().position(|&b| b == n1 || b == n2 || b == n3)),
+            5 => check("first memrchr3", t, memchr::memrchr3(n3, n2, n1, &h), h.iter().rposition(|&b| b == n1 || b == n2 || b == n3)),
+            _ => check("first count", t, memchr::memchr_iter(n1, &h).count(), h.iter().filter(|&&b| b == n1).count()),
+        }
+    }
+}
+
+fn worker(t: usize, rounds: usize, threads: usize, first: usize, shared: Option<&[(memmem::Finder<'_>, memmem::FinderRev<'_>, Vec<u8>)]>) {
     let ns = needles();
     // cold mode: nothing in the process has used the crate yet; all threads
     // leave the gate together and make their FIRST constructions and calls
@@ -93,6 +134,9 @@ fn worker(t: usize, rounds: usize, threads: usize, shared: Option<&[(memmem::Fin
     let shared = match shared {
         Some(s) => s,
         None => {
+            if first < 7 {
+                first_call_sweep(t, threads, first);
+            }
             GATE.fetch_add(1, Ordering::SeqCst);
             while GATE.load(Ordering::SeqCst) < threads as u64 {
                 std::hint::spin_loop();
@@ -194,10 +238,13 @@ fn main() {
     let get = |k: &str, d: usize| a.iter().position(|x| x == k).and_then(|i| a.get(i + 1)).and_then(|v| v.parse().ok()).unwrap_or(d);
     let threads = get("--threads", 3);
     let rounds = get("--rounds", 2);
+    // cold mode: which dispatched routine gets the process's first call
+    // (7 = no first-call sweep: the first calls are finder constructions)
+    let first = get("--first", 7);
     if a.iter().any(|x| x == "--cold") {
         std::thread::scope(|s| {
             for t in 0..threads {
-                s.spawn(move || worker(t, rounds, threads, None));
+                s.spawn(move || worker(t, rounds, threads, first, None));
             }
         });
         let m = MISMATCHES.load(Ordering::Relaxed);
@@ -219,7 +266,7 @@ fn main() {
     std::thread::scope(|s| {
         for t in 0..threads {
             let shared = &shared;
-            s.spawn(move || worker(t, rounds, threads, Some(shared)));
+            s.spawn(move || worker(t, rounds, threads, 7, Some(shared)));
         }
     });
     let m = MISMATCHES.load(Ordering::Relaxed);
